@@ -1,6 +1,6 @@
 (* RoundTripSuff.v — simple sufficient conditions for the semantic side conditions of wf. *)
 From FDO Require Import Cbor.Typed Cbor.DecFacts.
-From WIP Require Import RoundTripMono RoundTripHead RoundTripWf RoundTripCheck.
+From FDO Require Import Cbor.RoundTripMono Cbor.RoundTripHead Cbor.RoundTripWf Cbor.RoundTripCheck.
 Local Open Scope nat_scope.
 
 (* ---- 1. structs with at most one omitempty field satisfy the field-selection condition ---- *)
